@@ -138,20 +138,34 @@ func startEngine(t *testing.T, tag string, auth bool, same bool, keysPath string
 	return inst
 }
 
-// send writes raw bytes and returns the status code of the first response (0 = none / connection closed).
+// send writes raw bytes and returns the status code of the first response: 0 = the server closed the connection without
+// a response, -1 = NO ANSWER (could not connect, write or read within the deadline). No answer is a machine-load hiccup,
+// never a verdict: the request is sent again (twice), and callers skip the "answered 401" clause for -1. (A handler
+// that ran is recorded by the handler itself, whatever became of the response.)
 func send(addr string, raw string) int {
-	c, err := net.DialTimeout("tcp", addr, 2*time.Second)
+	code := -1
+	for attempt := 0; attempt < 3 && code == -1; attempt++ {
+		code = sendOnce(addr, raw, time.Duration(3+4*attempt)*time.Second)
+	}
+	return code
+}
+
+func sendOnce(addr string, raw string, patience time.Duration) int {
+	c, err := net.DialTimeout("tcp", addr, patience)
 	if err != nil {
 		return -1
 	}
 	defer c.Close()
-	_ = c.SetDeadline(time.Now().Add(3 * time.Second))
+	_ = c.SetDeadline(time.Now().Add(patience))
 	if _, err := io.WriteString(c, raw); err != nil {
 		return -1
 	}
 	br := bufio.NewReader(c)
 	line, err := br.ReadString('\n')
 	if err != nil {
+		if ne, ok := err.(net.Error); ok && ne.Timeout() {
+			return -1
+		}
 		return 0
 	}
 	var proto string
@@ -1044,7 +1058,7 @@ func TestVerifC04(t *testing.T) {
 	}
 	canon := target{Method: "GET", Target: "/internal/probe", Version: "HTTP/1.1", Host: auth.internalAddr}
 	takeHits()
-	if code := send(auth.internalAddr, canon.raw([]string{"Bearer " + goodTok})); code != 200 || len(takeHits()) != 1 {
+	if code := send(auth.internalAddr, canon.raw([]string{"Bearer " + goodTok})); code != 200 || len(takeHits()) < 1 {
 		t.Fatalf("harness: valid token on canonical path not served (status %d)", code)
 	}
 	if code := send(auth.internalAddr, canon.raw(nil)); code != 401 || len(takeHits()) != 0 {
@@ -1094,7 +1108,10 @@ func TestVerifC04(t *testing.T) {
 						map[string]any{"raw": concrete("ADDR"), "desc": tg.Desc})
 				}
 			}
-			if routedInternal && len(ah) == 0 && code != 401 {
+			if code == -1 {
+				r.NotExhaustive("a request got no answer in three attempts (machine load)")
+			}
+			if routedInternal && len(ah) == 0 && code != 401 && code != -1 {
 				r.Violation("C04|not-401|"+classify(tg), fmt.Sprintf("request %q routes to an /internal handler but an unauthenticated request is answered %d instead of 401", tg.Method+" "+tg.Target, code),
 					map[string]any{"raw": concrete("ADDR"), "desc": tg.Desc})
 			}
@@ -1166,6 +1183,8 @@ func TestVerifC04(t *testing.T) {
 						r.Violation("C04|token|"+tokenClass(s), fmt.Sprintf("handler ran for a token the statement refuses: %s (header shape %s)", s.Desc, sn),
 							map[string]any{"spec": s, "header": shapes[sn], "target": tg})
 					}
+				} else if code == -1 {
+					r.NotExhaustive("a request got no answer in three attempts (machine load)")
 				} else if code != 401 {
 					r.Violation("C04|token-not-401|"+tokenClass(s), fmt.Sprintf("refused token answered %d instead of 401: %s (%s)", code, s.Desc, sn),
 						map[string]any{"spec": s, "header": shapes[sn], "target": tg})
@@ -1267,7 +1286,10 @@ func TestVerifC04(t *testing.T) {
 							fmt.Sprintf("sequence %v: step %d (%s) was served although the credential is not acceptable at that moment (expired=%v)", seq, si, e, definitelyExpired),
 							map[string]any{"sequence": seq, "step": si})
 					}
-					if !ran && code != 401 {
+					if code == -1 {
+						r.NotExhaustive("a request got no answer in three attempts (machine load)")
+					}
+					if !ran && code != 401 && code != -1 {
 						r.Violation("C04|token-lifecycle-not-401|"+string(e), fmt.Sprintf("sequence %v: refused step answered %d", seq, code), map[string]any{"sequence": seq, "step": si})
 					}
 					if definitelyExpired && !ran {
